@@ -29,6 +29,15 @@ pub(crate) enum ResolvedRanges {
     Satisfiable(SmallVec<[Range<u64>; 1]>),
 }
 
+/// Parses a `first-byte-pos`, `last-byte-pos` or `suffix-length`: `1*DIGIT`.
+/// Unlike `u64::from_str`, doesn't accept a leading `+`.
+fn parse_pos(s: &str) -> Option<u64> {
+    if !s.bytes().all(|b| b.is_ascii_digit()) {
+        return None;
+    }
+    u64::from_str(s).ok()
+}
+
 /// Parses the byte-range-set in the range header as described in [RFC 7233 section
 /// 2.1](https://tools.ietf.org/html/rfc7233#section-2.1).
 pub(crate) fn parse(range: Option<&HeaderValue>, len: u64) -> ResolvedRanges {
@@ -57,9 +66,9 @@ pub(crate) fn parse(range: Option<&HeaderValue>, len: u64) -> ResolvedRanges {
         };
         if hyphen == 0 {
             // It's a suffix-byte-range-spec.
-            let last = match u64::from_str(&r[1..]) {
-                Err(_) => return ResolvedRanges::None, // unparseable
-                Ok(l) => l,
+            let last = match parse_pos(&r[1..]) {
+                None => return ResolvedRanges::None, // unparseable
+                Some(l) => l,
             };
             // A suffix longer than the entity selects all of it (RFC 7233 section 2.1).
             let last = cmp::min(last, len);
@@ -68,15 +77,15 @@ pub(crate) fn parse(range: Option<&HeaderValue>, len: u64) -> ResolvedRanges {
             }
             ranges.push((len - last)..len);
         } else {
-            let first = match u64::from_str(&r[0..hyphen]) {
-                Err(_) => return ResolvedRanges::None, // unparseable
-                Ok(f) => f,
+            let first = match parse_pos(&r[0..hyphen]) {
+                None => return ResolvedRanges::None, // unparseable
+                Some(f) => f,
             };
             let end = if r.len() > hyphen + 1 {
                 cmp::min(
-                    match u64::from_str(&r[hyphen + 1..]) {
-                        Err(_) => return ResolvedRanges::None, // unparseable
-                        Ok(l) => l,
+                    match parse_pos(&r[hyphen + 1..]) {
+                        None => return ResolvedRanges::None, // unparseable
+                        Some(l) => l,
                     }
                     .saturating_add(1),
                     len,
